@@ -17,7 +17,7 @@ L2  the property on the real output, no model of the passes: the real body befor
     body after expansion are evaluated by the Coq fixed-width evaluator on extreme and random scalars and
     compared with the kernel's arithmetic formula; a dispatched kernel must be declared (checked on the
     real Python objects); the real rescale expansion is compared with the repo's golden model
-    (util/gemmx/simd_golden_model.py), mismatches classified by the Coq predicate `rescale_safe`.
+    (util/gemmx/simd_golden_model.py), mismatches classified per channel by the Coq predicates `rescale_safe_pc` / `rescale_safe_w`.
 """
 from __future__ import annotations
 
@@ -51,7 +51,7 @@ ASSUMPTIONS = [
     "recognise_sound_typed assumes the recognised body is valid IR (body_typed: equal operand types for add/mul/sub, widening extsi, yielded type = output type); L1 checks body_typed on every verified generated body",
     "arith overflow flags / poison are not modelled; only add/mul/sub/extsi (+ trunci/shrsi/minsi/maxsi for the rescale expansion)",
     "integer types are modelled by their widths (signedness ignored); operands of a kernel op are block arguments of the linalg body (captured outer values are not modelled)",
-    "class rescale_not_safe: rescale_safe is the Coq predicate of the theorem; whether the channels carry different parameters is decided in Python (the Coq rparams hold channel 0 only)",
+    "class rescale_not_safe (F18) is entirely a Gallina predicate: rescale_safe_pc (per-channel multiplier/shift arrays, theorem C18_rescale_pc_expand_vs_golden) and rescale_safe_w (result width, theorem C18_rescale_for_vs_golden); every channel of the numpy golden model is compared inside Coq",
     "the '_stream' suffix of library_call (static shapes on a streamer accelerator) is not modelled; only the chosen accelerator",
     "golden model of the rescale = util/gemmx/simd_golden_model.py on an int64 input array (numpy semantics modelled by hand: int32 casts wrap)",
 ]
@@ -545,6 +545,11 @@ def rp_lit(p):
             f"{'true' if p['dr'] else 'false'})")
 
 
+def rpc_lit(p):
+    return (f"(mkRpc {zlit(p['zp_in'])} {zlit(p['zp_out'])} {vlib.zlist(p['mults'])} {vlib.zlist(p['shifts'])} {zlit(p['max'])} {zlit(p['min'])} "
+            f"{'true' if p['dr'] else 'false'})")
+
+
 # dispatch ------------------------------------------------------------------------------------
 class FakeAcc:
     def __init__(self, name, supported):
@@ -727,7 +732,7 @@ def correspondence(ctx):
         ctx.count({"L1": "rescale", "params": p}, True, json.dumps(p), "rescale-expand")
     texts.append(HEADER + f"Definition cases : list (rparams * body) := {coqlist(rcases)}.\n"
                  "Eval vm_compute in failing (fun c : rparams * body => body_eqb_full (rescale_region (fst c)) (snd c)) cases.\n")
-    # (3b) the same for kernel.rescale (i32) -> i32: LowerRescale ignores the result type (known finding F-C18-3)
+    # (3b) the same for kernel.rescale (i32) -> i32 (F-C18-3 repaired: no truncation for an i32 result)
     ps32 = ps[:2] + [W32["params"]] + ps[2:ctx.n(10, 60)]
     rex32 = run_rescale(ps32, 32)
     ctx.extra["_res32"] = list(zip(ps32, rex32))
@@ -960,28 +965,29 @@ def search(ctx, deep=False):
                 g = golden(p, x)
             except Exception:
                 g = None
-            same_ch = all(m == p["mults"][0] for m in p["mults"]) and all(s == p["shifts"][0] for s in p["shifts"])
-            # per-channel parameters: the expansion uses channel 0 only (documented); compare channel 0, classify the rest
-            gl = "None" if g is None else f"(Some {zlit(g[0])})"
-            allsame = g is not None and all(v == g[0] for v in g)
+            # every channel of the golden model is compared in Coq; the class (F18) is the Gallina predicate
+            # rescale_safe_pc (per-channel parameters included) / rescale_safe_w (result width)
+            gl = "None" if g is None else f"(Some {vlib.zlist(g)})"
             single = len(p["mults"]) == 1 and len(p["shifts"]) == 1
-            ritems.append(f"({body_lit(conv[1])}, {rp_lit(p)}, {zlit(x)}, {gl}, {'true' if (same_ch or allsame) else 'false'}, {zlit(outw)}, {'true' if single else 'false'})")
+            ritems.append(f"({body_lit(conv[1])}, {rpc_lit(p)}, {zlit(x)}, {gl}, {zlit(outw)}, {'true' if single else 'false'})")
             rmeta.append({"what": "rescale-differs-from-golden", "params": p, "x": x, "golden": g, "outw": outw})
             ctx.count({"L2": "rescale", "params": p, "x": x, "outw": outw}, True, None, "L2-rescale" + ("" if outw == 8 else "-i32"))
-    # codes: 0 ok; 1 real body != model formula; 2 differs from golden inside the safe classes (violation); 3 differs, class
-    # rescale_not_safe (F18); 4 the model's golden_rescale differs from the real numpy golden model (model defect);
-    # 5 result type not i8: the body yields an i8 where the output type is wider (class rescale_result_not_i8, F-C18-3);
-    # 6 ill-typed yield although the result is i8 (violation)
-    RT = ("fun c : body * rparams * Z * option Z * bool * Z * bool => match c with (b, p, x, g, chan_ok, wout, single) => "
-          "let r := eval_body b [x; 0%Z] in "
-          "if negb (list_eqb Z.eqb r [expand_rescale p x]) then 1 else "
-          "if single && (1 <=? shift p)%Z && (shift p <=? 64)%Z && negb (match g with Some gv => (golden_rescale p x =? gv)%Z | None => true end) then 4 else "
-          "if negb (yield_typed b) then (if rescale_result_not_i8 wout then 5 else 6) else "
-          "match g with Some gv => if list_eqb Z.eqb r [gv] && chan_ok then 0 else "
-          "if rescale_result_not_i8 wout then 5 else if rescale_safe p x && chan_ok then 2 else 3 "
-          "| None => if rescale_safe p x then 2 else 3 end end")
+    # codes: 0 ok; 1 real body != model formula; 2 some channel differs from the golden model although
+    # rescale_safe_pc / rescale_safe_w hold for it (violation); 3 differs only on channels outside the safe class
+    # (F18: double rounding, per-channel parameters, overflow, clamp outside the result type); 4 the model's
+    # golden_rescale differs from the real numpy golden model (model defect); 6 ill-typed yield (violation:
+    # F-C18-3 is repaired, the yielded value must have the result type)
+    RT = ("fun c : body * rparams_pc * Z * option (list Z) * Z * bool => match c with (b, q, x, g, wout, single) => "
+          "let p := chan q 0 in let r := eval_body b [x; 0%Z] in "
+          "if negb (list_eqb Z.eqb r (eval_body (rescale_region_for wout p) [x; 0%Z])) then 1 else "
+          "if single && (1 <=? shift p)%Z && (shift p <=? 64)%Z && negb (match g with Some (gv :: _) => (golden_rescale p x =? gv)%Z | _ => true end) then 4 else "
+          "if negb (yield_typed b) then 6 else "
+          "match g with Some gvs => "
+          "let bad := filter (fun c => negb (list_eqb Z.eqb r [nth c gvs 0%Z])) (seq 0 (length gvs)) in "
+          "match bad with [] => 0 | _ => if existsb (fun c => rescale_safe_pc q c x && rescale_safe_w wout (chan q c) x) bad then 2 else 3 end "
+          "| None => if rescale_safe_w wout p x then 2 else 3 end end")
     RSH = 400
-    rtexts = [HEADER + f"Definition cases : list (body * rparams * Z * option Z * bool * Z * bool) := {coqlist(ritems[s:s + RSH])}.\nEval vm_compute in map ({RT}) cases.\n"
+    rtexts = [HEADER + f"Definition cases : list (body * rparams_pc * Z * option (list Z) * Z * bool) := {coqlist(ritems[s:s + RSH])}.\nEval vm_compute in map ({RT}) cases.\n"
               for s in range(0, len(ritems), RSH)]
     lists = _eval_lists("c18l2_", texts + ktexts + rtexts)
     for si, bad in enumerate(lists[:len(texts)]):
@@ -1001,8 +1007,6 @@ def search(ctx, deep=False):
             fails.append({**m, "klass": "rescale_not_safe"})
         elif c == 4:
             fails.append({**m, "what": "model-golden_rescale-differs-from-numpy-golden-model", "klass": None})
-        elif c == 5:
-            fails.append({**m, "what": "rescale-result-type-ignored", "klass": "rescale_result_not_i8"})
         elif c == 6:
             fails.append({**m, "what": "rescale-body-yield-ill-typed", "klass": None})
     # (4) dispatch: a dispatched kernel is declared by the chosen accelerator (real Python objects)
@@ -1039,13 +1043,6 @@ def _dedup(fails):
 def replay_known(ctx, entry):
     w = entry["witness"]
     p = w["params"]
-    if entry["class"] == "rescale_result_not_i8":
-        conv = run_rescale([p], w["outw"])[0]
-        g = golden(p, w["x"])
-        txt = HEADER + (f"Eval vm_compute in (negb (yield_typed {body_lit(conv[1])}) && rescale_result_not_i8 {zlit(w['outw'])} "
-                        f"&& negb (list_eqb Z.eqb (eval_body {body_lit(conv[1])} [{zlit(w['x'])}; 0%Z]) [{zlit(g[0])}])).\n")
-        ok, out = vlib.coq_eval("c18known", txt)
-        return ok and "= true" in out
     conv = run_rescale([p])[0]
     g = golden(p, w["x"])
     txt = HEADER + (f"Eval vm_compute in (negb (list_eqb Z.eqb (eval_body {body_lit(conv[1])} [{zlit(w['x'])}; 0%Z]) [{zlit(g[0])}]) "
